@@ -42,6 +42,23 @@ theorem cross_method_refused (tbl : List SealRec) (hu : NoncesUnique tbl) (inst 
         · exact ⟨.wrongMethod, by rw [hx]; simp⟩
         · exact absurd hm hdiff
 
+/-- **externalized_cursor_is_checked**: for an externalized continuation the cursor that decides is
+the uploaded batch's when it carries one, else the pointer batch's (`effectiveTokens`); whichever it
+is goes through the same `exchange`, so `cross_method_refused` applies to it: a foreign-method
+cursor riding the uploaded batch is refused exactly like one on the request itself, whatever the
+pointer batch carries. -/
+theorem externalized_cursor_is_checked (tbl : List SealRec) (hu : NoncesUnique tbl) (inst : Inst) (req : Req)
+    (cur call xcall : Option Bytes) (xtok : Bytes)
+    (r : SealRec) (hr : r ∈ tbl) (hk : r.key = normKey inst.key) (hn : r.nonce.length = nonceLen)
+    (d : CursorData) (hp : r.pt = .cursor d) (v : UInt8)
+    (htok : b64Std xtok = some (v :: (r.nonce ++ r.ct))) (hdiff : d.method ≠ req.method)
+    (hcancel : req.cancel = false)
+    (heff : req.cursor = (effectiveTokens true req.cancel cur call (some xtok) xcall).1) :
+    ∃ e, exchange tbl inst req = (inst, refuse (if e = .notFound then 404 else 400) e) := by
+  have hc : req.cursor = some xtok := by
+    rw [heff, hcancel]; rfl
+  exact cross_method_refused tbl hu inst req r hr hk hn d hp xtok v htok hc hdiff
+
 /-- `k` implements the producer interface / the exchange interface -/
 def implProducer (k : SKind) : Prop := k = .producer ∨ k = .both
 def implExchange (k : SKind) : Prop := k = .exchange ∨ k = .both
